@@ -80,6 +80,29 @@ func genTraffic(r *core.Rand, tier string, s *Scenario, allowCancel bool) {
 		maxMsgs = 8
 	}
 	win := 65535
+	// the windows that really apply to each direction (0 = default 65535)
+	effWin := func(sw, cw int32) int {
+		w := 65535
+		if sw >= 65535 {
+			w = int(sw)
+		}
+		c := 65535
+		if cw >= 65535 {
+			c = int(cw)
+		}
+		return min(w, c)
+	}
+	c2sWin := effWin(s.Server.StreamWindow, s.Server.ConnWindow)
+	s2cWin := effWin(s.Client.StreamWindow, s.Client.ConnWindow)
+	// boundary pattern: a message that leaves 0..6 bytes of window, followed
+	// by empty / tiny messages, sent while the receiver is not reading
+	boundary := func(w int) []int {
+		out := []int{max(w-5-r.Intn(7), 0)}
+		for k := r.Range(1, 3); k > 0; k-- {
+			out = append(out, core.Pick(r, 0, 0, 1, 3, 7))
+		}
+		return out
+	}
 	for i := 0; i < n; i++ {
 		rpc := RPC{ID: uint32(i + 1), StartNs: int64(r.Intn(3)) * int64(r.Intn(2000000))}
 		nc := r.Range(0, maxMsgs)
@@ -89,7 +112,23 @@ func genTraffic(r *core.Rand, tier string, s *Scenario, allowCancel bool) {
 		slowC := r.Chance(1, 3)
 		slowS := r.Chance(1, 3)
 		nap := func() Op { return Op{Op: "sleep", Ns: int64(core.Pick(r, 1000, 1000000, 50000000, 2000000000))} }
+		if r.Chance(1, 6) && (costCap == 0 || costCap > 60000) {
+			style = 4
+		}
 		switch style {
+		case 4: // window-boundary pattern in one direction
+			if r.Chance(1, 2) {
+				for _, n := range boundary(c2sWin) {
+					rpc.Client = append(rpc.Client, Op{Op: "send", N: n})
+				}
+				rpc.Client = append(rpc.Client, Op{Op: "close_send"}, Op{Op: "recv_all"})
+				srv = append(srv, Op{Op: "sleep", Ns: int64(core.Pick(r, 1000, 1000000, 50000000))}, Op{Op: "recv_all"})
+			} else {
+				rpc.Client = append(rpc.Client, Op{Op: "close_send"}, Op{Op: "sleep", Ns: int64(core.Pick(r, 1000, 1000000, 50000000))}, Op{Op: "recv_all"})
+				for _, n := range boundary(s2cWin) {
+					srv = append(srv, Op{Op: "send", N: n})
+				}
+			}
 		case 0: // client streams everything, then server answers
 			for k := 0; k < nc; k++ {
 				rpc.Client = append(rpc.Client, Op{Op: "send", N: genSize(r, win)})
